@@ -52,6 +52,32 @@ theorem expire_not_holder (σ : Sys) (i : Nat) (c : Client) (hc : σ.clients[i]?
   · rw [if_neg hgd] at he
     exact absurd rfl he
 
+/-- the same for the expiry in the middle of an AcquireLock (`expireAcq`) -/
+theorem expireAcq_not_holder (σ : Sys) (i : Nat) (c : Client) (hc : σ.clients[i]? = some c)
+    (he : step σ (.expireAcq i) ≠ σ) :
+    holds (step σ (.expireAcq i)) i = false ∧ ∀ c', (step σ (.expireAcq i)).clients[i]? = some c' → c'.cache = none := by
+  simp only [step, hc] at he ⊢
+  by_cases hgd : (c.cache.isNone && (c.prog.isNone || c.acquiring)) = true
+  · rw [if_pos hgd]
+    simp only [Bool.and_eq_true, Option.isNone_iff_eq_none] at hgd
+    constructor
+    · cases hh : holds { σ with srv := σ.srv.expire c.sid } i with
+      | false => rfl
+      | true =>
+        rw [holds_iff] at hh
+        obtain ⟨c', hc', _, _, _, _, hl⟩ := hh
+        have hc'' : σ.clients[i]? = some c' := hc'
+        rw [hc] at hc''
+        cases hc''
+        simp [Server.expire] at hl
+    · intro c' hc'
+      have hc'' : σ.clients[i]? = some c' := hc'
+      rw [hc] at hc''
+      cases hc''
+      exact hgd.1
+  · rw [if_neg hgd] at he
+    exact absurd rfl he
+
 /-! ### `told` grows only for a client that has a cache entry afterwards -/
 
 theorem settle_told {σ : Sys} {i : Nat} {c : Client} {p : Prog Res} {j : Nat} {b : Bool} {told0 : List (Nat × Bool)}
@@ -141,6 +167,11 @@ theorem told_grows_cache (σ : Sys) (st : Step) (j : Nat) (b : Bool) (h : (step 
     simp only [step] at hs
     split at hs <;> (subst hs; exact hno h)
   | expire i =>
+    simp only [step] at hs
+    split at hs
+    · split at hs <;> (subst hs; exact hno h)
+    · subst hs; exact hno h
+  | expireAcq i =>
     simp only [step] at hs
     split at hs
     · split at hs <;> (subst hs; exact hno h)
@@ -274,6 +305,13 @@ theorem ttl_step {σ : Sys} (h : TtlInv σ) (st : Step) : TtlInv (step σ st) :=
     · exact ttl_update h rfl rfl rfl (fun t ht => by simp at ht) (Or.inl rfl)
     · exact h
   | expire i =>
+    simp only [step]
+    split
+    · split
+      · exact h
+      · exact h
+    · exact h
+  | expireAcq i =>
     simp only [step]
     split
     · split
